@@ -92,7 +92,7 @@ theorem getInst_foundStopAllFor (s : Stack) (a : Addr) (i : Nat) : (s.foundStopA
     unfold foundStopAllFor; simp only []
     rw [foldl_pres (fun s => s.instances) _ (fun s e => ?_)]
     -- notifyService does not touch instances
-    show (notifyService (s.cancelTimer isSvcExpiry e.timer) false e.key a).instances = s.instances
+    show (notifyService (s.cancelTimer (isSvcExpiryFor a e.key) e.timer) false e.key a).instances = s.instances
     unfold notifyService; simp only []
     have hl : ∀ (s : Stack) (l : Listener), (if false = true then s.listenerOffered l e.key a else s.listenerStopped l e.key a).instances = s.instances := by
       intro s l; simp only [Bool.false_eq_true, if_false]
@@ -128,7 +128,7 @@ theorem c04_restart_first_message_server (s : Stack) (i : Nat) (x : Instance) (t
     have : (s.foundStopAllFor a).announceOrder = s.announceOrder := by
       unfold foundStopAllFor; simp only []
       rw [foldl_pres (fun s => s.announceOrder) _ (fun s e => ?_)]
-      show (notifyService (s.cancelTimer isSvcExpiry e.timer) false e.key a).announceOrder = s.announceOrder
+      show (notifyService (s.cancelTimer (isSvcExpiryFor a e.key) e.timer) false e.key a).announceOrder = s.announceOrder
       unfold notifyService; simp only []
       have hl : ∀ (s : Stack) (l : Listener), (if false = true then s.listenerOffered l e.key a else s.listenerStopped l e.key a).announceOrder = s.announceOrder := by
         intro s l; simp only [Bool.false_eq_true, if_false]
